@@ -4,8 +4,17 @@ Real code under test: `TransferShelveCache` on a temp directory, `Transfer.__get
 `TransferManager.add / remove / store_data / load_data / stop / _get_queued_transfers` with stub collaborators.
 Model: lean/AioslskVerif/Model/Cache.lean through Driver/C17.lean.
 
-Three families of cases:
-  * op lists with the cache written at quiescent points (add / mut / rm / store / legacy / restart / sched);
+Families of cases:
+  * op lists with the cache written at quiescent points (add / mut / rm / store / legacy / restart / sched / cycle);
+  * caches left by ANOTHER release of the writer than the reader (model-backed): `prev` writes the entry the *pinned* writer
+    (`Transfer.__getstate__` as pinned by theorem C17_fields_pinned = HEAD's) leaves for a transfer — every persisted
+    attribute present, the remote-queue mark set in every state — whatever the tree under test writes itself; the frozen
+    writer is checked byte for byte against corpus/C17/head-writer-records.json (pickles produced by the unmodified HEAD
+    `TransferShelveCache.write`), and `prevc` loads those very bytes; `dupkey` leaves one transfer under both key formats;
+  * `read_cache()` split at ITS suspension points (model-backed): `restartc` runs `load_data()` as its own task, suspended
+    in the application's `TransferAddedEvent` listener after every entry it registers; `loadr` resumes it; `add()` /
+    `remove()` / attribute changes / writes of entries it has (not) reached happen in between; plus *loadsweeps* (monitor
+    only): `load_data()` next to tasks calling the public `download()` for entries of the cache, slow listeners;
   * *phased* op lists (model-backed): `add()` / `remove()` run as their own tasks and are suspended in their listeners
     (`TransferAddedEvent`, the state listeners of the abort transition, `TransferRemovedEvent`); attribute changes,
     further operations, cache writes (`store_data()` / `stop()` + `store_data()`) and the end of the process happen
@@ -21,18 +30,22 @@ the public list + attributes at that instant, and the *ghost* sets "addition rep
 from __future__ import annotations
 
 import asyncio
+import base64
 import copyreg
 import hashlib
 import io
+import json
 import logging
 import os
 import pickle
 import random
 import shelve
 import shutil
+import sys
 import tempfile
 import types
-from collections import Counter
+from collections import Counter, defaultdict
+from pathlib import Path
 from typing import Any, Optional
 
 from vlib import common, simloop
@@ -79,9 +92,12 @@ def _spec_line(s: dict) -> str:
             f"off={int(s['off'])} tk={s['tk']}")
 
 
-def _model_lines(case: dict) -> list[str]:
+def _model_lines(case: dict, trace: Optional[list] = None) -> list[str]:
+    """One driver line per op. The order in which shelve hands out the entries to a phased load is the environment's
+    choice: it is read off the implementation trace (`order` of the `restartc` event) and told to the model."""
     out = []
-    for op in case['ops']:
+    orders = {ev['i']: ev['order'] for ev in (trace or []) if ev.get('op') == 'restartc' and 'order' in ev}
+    for i, op in enumerate(case['ops']):
         k = op[0]
         if k == 'add':
             out.append('add ' + _spec_line(op[1]))
@@ -100,8 +116,19 @@ def _model_lines(case: dict) -> list[str]:
         elif k == 'legacy':
             _, u, p, d, a, o, kk, s = op
             out.append(f'legacy {_xs(u)} {_xs(p)} {d} {int(a)} {int(o)} {int(kk)} {int(s)}')
-        elif k == 'sched':
+        elif k in ('sched', 'cycle'):
+            # `cycle`: the peers told by the first management cycle of the real job = the scheduler's choice
             out.append('sched ' + ','.join(_xs(u) for u in op[1]))
+        elif k == 'prev':
+            out.append('prev ' + _spec_line(op[1]) + f' ok={int(op[2])}')
+        elif k == 'prevc':
+            out.append('prev ' + _spec_line(corpus()['records'][op[1]]['spec']) + ' ok=0')
+        elif k == 'dupkey':
+            out.append(f'dupkey {_xs(op[1])} {_xs(op[2])} {op[3]}')
+        elif k == 'restartc':
+            out.append(('loadc ' + ';'.join(_sid(tuple(x)) for x in orders.get(i, []))).strip())
+        elif k == 'loadr':
+            out.append('loadr')
         elif k in ('new', 'store', 'restart'):
             out.append(k)             # ['store', 'stop'] = stop() + store_data(): the same write for the model
         else:
@@ -121,7 +148,7 @@ def _canon(line: str, model_side: bool) -> str:
             ks = [hashlib.sha256(bytes.fromhex(k)).hexdigest() for k in ks]
         return ('keys ' + ','.join(sorted(ks)) + ' there=' + ';'.join(sorted(x for x in there.strip().split(';') if x)) +
                 ' gone=' + ';'.join(sorted(x for x in gone.strip().split(';') if x)))
-    if line.startswith('loaded '):
+    if line.startswith('loaded '):      # (a `loading …` line names one identity: nothing to sort)
         parts = line.split(' ', 3)
         body = parts[3] if len(parts) > 3 else ''
         return ' '.join(parts[:3]) + ' ' + '|'.join(sorted(x for x in body.split('|') if x))
@@ -163,6 +190,203 @@ class _LegacyWriter:
 
 class _HarnessError(BaseException):
     """A failure of harness code (not of the code under test)."""
+
+
+# --------------------------------------------------------------------------------------------
+# the pinned writer: what the release the model transcribes (`persist`, theorem C17_fields_pinned) leaves in the cache
+# --------------------------------------------------------------------------------------------
+
+CORPUS_FILE = Path(__file__).resolve().parent.parent / 'corpus' / 'C17' / 'head-writer-records.json'
+
+
+def _norm_spec(s: dict) -> dict:
+    """equal strings become one object (pickle memoises strings by identity: byte-identity needs the same sharing)"""
+    return {k: sys.intern(v) if isinstance(v, str) else v for k, v in s.items()}
+
+
+def _pinned_state(s: dict) -> dict:
+    """`Transfer.__getstate__()` of the pinned release for a transfer with the attributes of spec `s`: the whole
+    `__dict__` in `__init__` order minus the runtime-only fields (`_offset`, assigned later, comes last), state by value."""
+    from aioslsk.transfer.model import TransferDirection
+    from aioslsk.transfer.state import TransferState
+    s = _norm_spec(s)
+    st = {
+        'state': TransferState.State(s['st']), 'direction': TransferDirection(s['d']),
+        'username': s['u'], 'remote_path': s['p'], 'local_path': s['lp'], 'remotely_queued': bool(s['rq']),
+        'place_in_queue': s['piq'], 'fail_reason': s['fr'], 'abort_reason': s['ar'], 'filesize': s['fs'],
+        'bytes_transfered': s['bt'], 'queue_attempts': s['qa'], 'last_queue_attempt': float(s['lqa']),
+        'upload_request_attempts': s['ura'], 'last_upload_request_attempt': float(s['lura']),
+        'start_time': None if s['stt'] is None else float(s['stt']),
+        'complete_time': None if s['ct'] is None else float(s['ct']),
+    }
+    if s['off']:
+        st['_offset'] = 0
+    return st
+
+
+class _PinnedPickler(pickle.Pickler):
+    """Pickles a Transfer as the pinned release does (`copyreg.__newobj__(Transfer)` + state dict) with a state WE
+    supply — the `__getstate__` of the tree under test is not asked."""
+
+    def reducer_override(self, obj):
+        st = getattr(obj, '__dict__', {}).get('_c17_pinned_state')
+        if st is not None:
+            return (copyreg.__newobj__, (type(obj),), st)
+        return NotImplemented
+
+
+def _pinned_pickle(s: dict) -> bytes:
+    from aioslsk.transfer.model import Transfer
+    o = Transfer.__new__(Transfer)
+    o.__dict__['_c17_pinned_state'] = _pinned_state(s)
+    f = io.BytesIO()
+    _PinnedPickler(f, pickle.DEFAULT_PROTOCOL).dump(o)      # what shelve does with a value
+    return f.getvalue()
+
+
+def _pinned_key(u: str, p: str, d: int, old: bool = False) -> str:
+    """cache key of the pinned release (`old`: of the release before fixes/C17-cache-key-ambiguous)"""
+    text = (u + p + str(d)) if old else (str(len(u)) + ':' + u + p + str(d))
+    return hashlib.sha256(text.encode('utf-8')).hexdigest()
+
+
+_CORPUS: Optional[dict] = None
+
+
+def corpus() -> dict:
+    """Records written by the unmodified HEAD `TransferShelveCache.write` (see `write_corpus`)."""
+    global _CORPUS
+    if _CORPUS is None:
+        c = json.loads(CORPUS_FILE.read_text())
+        for r in c['records']:
+            r['bytes'] = base64.b64decode(r['pickle'])
+        _CORPUS = c
+    return _CORPUS
+
+
+def _corpus_specs() -> list[dict]:
+    """The grid of the corpus: every state x direction x remote-queue mark, each with five attribute profiles (defaults;
+    every falsy legal value; mid-transfer values; all bytes there; large / non-ASCII values)."""
+    profiles = [
+        dict(lp=None, fs=None, bt=0, fr=None, ar=None, piq=None, qa=0, lqa=0, ura=0, lura=0, stt=None, ct=None, off=False),
+        dict(lp='', fs=0, bt=0, fr='', ar='', piq=0, qa=0, lqa=0, ura=0, lura=0, stt=0, ct=0, off=False),
+        dict(lp='/nonexistent-c17/dl/a.mp3', fs=100, bt=40, fr=None, ar=None, piq=3, qa=1, lqa=1234, ura=2, lura=99,
+             stt=1700000000, ct=None, off=True),
+        dict(lp='/nonexistent-c17/dl/b.mp3', fs=100, bt=100, fr='Cancelled', ar='Requested', piq=None, qa=9, lqa=1,
+             ura=0, lura=0, stt=1700000000, ct=1700000100, off=False),
+        dict(lp='/nonexistent-c17/é (1).mp3', fs=2 ** 33 + 5, bt=2 ** 33 + 4, fr='File not shared.', ar='Blocked', piq=250,
+             qa=1, lqa=0, ura=1, lura=1, stt=1, ct=None, off=True),
+    ]
+    specs = []
+    for st in ALL_STATES:
+        for d in (0, 1):
+            for rq in (False, True):
+                for pi, prof in enumerate(profiles):
+                    u = f'u{st}' if pi < 4 else f'é日本 {st}'
+                    p = f'@@c17\\{d}\\p{pi}-{int(rq)}.mp3' if pi != 1 else ('' if (st, d, rq) == (1, 1, True) else f'{pi}{int(rq)}')
+                    if pi == 1 and (st, d, rq) == (4, 1, True):
+                        u = ''
+                    specs.append({'u': u, 'p': p, 'd': d, 'st': st, 'rq': rq, 'tk': 0, **prof})
+    assert len({(x['u'], x['p'], x['d']) for x in specs}) == len(specs)
+    return specs
+
+
+def write_corpus(repo: str = '/repo') -> int:
+    """(Re)generate corpus/C17/head-writer-records.json with the UNMODIFIED code of `repo` (run it on the pinned tree only:
+    `VERIF_REPO=/repo /venv/bin/python -m props.c17 write-corpus`): real Transfer objects, the real
+    `TransferShelveCache.write`, the raw bytes and keys read back from the dbm file."""
+    import subprocess
+    from aioslsk.transfer.model import Transfer, TransferDirection
+    from aioslsk.transfer.cache import TransferShelveCache
+    specs = _corpus_specs()
+    tmp = tempfile.mkdtemp(prefix='c17-corpus-')
+
+    async def build(loop):
+        ts = []
+        for sp in specs:
+            sp = _norm_spec(sp)
+            t = Transfer(sp['u'], sp['p'], TransferDirection(sp['d']))
+            _apply_spec(t, sp, loop)
+            ts.append(t)
+        TransferShelveCache(tmp).write(ts)
+    simloop.run(build, wall_timeout=60.0)
+    recs = []
+    with shelve.open(os.path.join(tmp, 'transfers'), flag='r') as sh:
+        raw = {(k.decode() if isinstance(k, bytes) else k): bytes(sh.dict[k]) for k in sh.dict.keys()}
+    for sp in specs:
+        key = _pinned_key(sp['u'], sp['p'], sp['d'])
+        recs.append({'spec': sp, 'key': key, 'pickle': base64.b64encode(raw.pop(key)).decode()})
+    assert not raw, 'the writer left entries under keys the pinned key format does not produce'
+    shutil.rmtree(tmp, ignore_errors=True)
+    head = subprocess.run(['git', '-C', repo, 'rev-parse', 'HEAD'], capture_output=True, text=True).stdout.strip()
+    dirty = subprocess.run(['git', '-C', repo, 'status', '--porcelain', 'src/aioslsk/transfer'], capture_output=True,
+                           text=True).stdout.strip()
+    CORPUS_FILE.parent.mkdir(parents=True, exist_ok=True)
+    CORPUS_FILE.write_text(json.dumps({
+        'what': 'transfer cache entries written by the unmodified TransferShelveCache.write / Transfer.__getstate__ of the '
+                'pinned tree (key, pickle bytes as stored by shelve, and the attribute values they were written from)',
+        'written_by_commit': head, 'worktree_clean': not dirty, 'python': sys.version.split()[0],
+        'pickle_protocol': pickle.DEFAULT_PROTOCOL, 'records': recs}, indent=0, ensure_ascii=False))
+    return len(recs)
+
+
+def _corpus_self_check() -> list[str]:
+    """The frozen writer above IS the writer that produced the corpus: same key, same bytes, for every record."""
+    bad = []
+    for i, r in enumerate(corpus()['records']):
+        sp = r['spec']
+        if _pinned_key(sp['u'], sp['p'], sp['d']) != r['key']:
+            bad.append(f'record {i}: key')
+        elif _pinned_pickle(sp) != r['bytes']:
+            bad.append(f'record {i}: bytes')
+    # remote-queue mark set / not set in every state x direction; every persisted field with its falsy legal value
+    grid = {(r['spec']['st'], r['spec']['d'], bool(r['spec']['rq'])) for r in corpus()['records']}
+    bad += [f'grid: no record with state {st}, direction {d}, remotely_queued {rq}'
+            for st in ALL_STATES for d in (0, 1) for rq in (False, True) if (st, d, rq) not in grid]
+    for k, v in BOUNDARY.items():
+        if not any(r['spec'][k] is not None and r['spec'][k] == v and type(r['spec'][k]) is type(v)
+                   for r in corpus()['records']):
+            bad.append(f'grid: no record with {k} = {v!r}')
+    return bad
+
+
+def _tree_writer_differs() -> int:
+    """How many corpus records the writer of the tree UNDER TEST would store differently (information only: a release may
+    change what it writes as long as it still reads what its predecessors wrote)."""
+    from aioslsk.transfer.model import Transfer, TransferDirection
+    n = 0
+
+    async def run(loop):
+        nonlocal n
+        for r in corpus()['records']:
+            sp = _norm_spec(r['spec'])
+            t = Transfer(sp['u'], sp['p'], TransferDirection(sp['d']))
+            _apply_spec(t, sp, loop)
+            try:
+                if pickle.dumps(t, pickle.DEFAULT_PROTOCOL) != r['bytes']:
+                    n += 1
+            except Exception:
+                n += 1
+    simloop.run(run, wall_timeout=60.0)
+    return n
+
+
+class _StubNet:
+    """The network as the first management cycle sees it: peer messages are recorded and then stay in flight."""
+
+    def __init__(self):
+        self.sent: list = []
+        self.unknown: list = []        # attributes the code asked for that this stub does not have
+
+    def __getattr__(self, name):
+        if not name.startswith('__'):
+            self.__dict__.setdefault('unknown', []).append(name)
+        raise AttributeError(name)
+
+    async def send_peer_messages(self, username, *messages, raise_on_error=True):
+        for m in messages:
+            self.sent.append([username, type(m).__qualname__.split('.')[0], getattr(m, 'filename', None)])
+        await asyncio.get_running_loop().create_future()
 
 
 class _StubUsers:
@@ -257,6 +481,11 @@ class _Pend:
         self.gate = None
         self.at = None
         self.transfer = None
+        # a `load_data()` task only:
+        self.gates: list = []          # its suspended TransferAddedEvent deliveries (one, unless it registers concurrently)
+        self.registered: list = []     # identities read_cache() has registered so far
+        self.touched: set = set()      # identities other operations were called for while it was running
+        self.wrote = False             # the cache was written while it was running
 
 
 class _App:
@@ -269,6 +498,8 @@ class _App:
         self.added = 0
         self.removed = 0
         self.pend: dict = {}           # ('add' | 'rm', ident) -> _Pend
+        self.load: Optional[_Pend] = None      # `load_data()` running as its own task
+        self.mine: list = []                   # Transfer objects the harness created itself (anything else comes from the cache)
 
     async def _gate(self, rec: _Pend, at: str):
         rec.at = at
@@ -278,6 +509,17 @@ class _App:
     async def on_added(self, event):
         self.added += 1
         ident = _tid(event.transfer)
+        ld = self.load
+        if ld is not None and not ld.task.done() and not any(event.transfer is x for x in self.mine):
+            # registered by read_cache(): as far as the user can tell its add() was called just now
+            self.ghost.add_called(ident)
+            self.ghost.added_reported(ident)
+            ld.registered.append(ident)
+            fut = self.loop.create_future()
+            ld.gates.append(fut)
+            await fut
+            self.ghost.add_returned(ident, True)
+            return
         self.ghost.added_reported(ident)
         for rec in self.pend.get(('add', ident), []):          # add() calls suspended for this identity, oldest first
             if rec.transfer is event.transfer:
@@ -332,7 +574,8 @@ def _fields(t, mgr=None) -> dict:
         'tk': sum(x is not None for x in (t._remotely_queue_task, t._transfer_task)),
     }
     if mgr is not None:
-        d['ls'] = f'{len(t.state_listeners)}/{sum(1 for l in t.state_listeners if l is mgr)}'
+        ls = [l for l in t.state_listeners if not isinstance(l, _App)]     # (the harness listens too while it removes)
+        d['ls'] = f'{len(ls)}/{sum(1 for l in ls if l is mgr)}'
     return d
 
 
@@ -343,17 +586,33 @@ def _show(f: dict) -> str:
             f"stt={_on(f['stt'])} ct={_on(f['ct'])} off={int(f['off'])} ls={f['ls']} tk={f['tk']}")
 
 
+def _raw_enum(v, enum_cls):
+    """value of an enum member however the writer stored it (member / value / name); '?' = not understood"""
+    if isinstance(v, enum_cls):
+        return v.value
+    try:
+        if isinstance(v, str):
+            return enum_cls[v].value
+        if isinstance(v, int) and not isinstance(v, bool):
+            return enum_cls(v).value
+    except (KeyError, ValueError):
+        pass
+    return '?'
+
+
 def _raw_db(tmp: str) -> list[dict]:
     """The pickled dicts in the shelve, read without running any aioslsk code."""
+    from aioslsk.transfer.model import TransferDirection
+    from aioslsk.transfer.state import TransferState
     out = []
     with shelve.open(os.path.join(tmp, 'transfers'), flag='c') as sh:
-        for k in list(sh.dict.keys()):
+        for k in list(sh.dict.keys()):          # (the order in which `TransferShelveCache.read` will get them)
             obj = _RawUnpickler(io.BytesIO(sh.dict[k])).load()
             st = obj.st
-            out.append({'key': k.decode() if isinstance(k, bytes) else k,
+            out.append({'key': k.decode() if isinstance(k, bytes) else k, 'h': hashlib.sha256(bytes(sh.dict[k])).hexdigest()[:16],
                         'u': st.get('username'), 'p': st.get('remote_path'),
-                        'd': getattr(st.get('direction'), 'value', None),
-                        'st': getattr(st.get('state'), 'value', None),
+                        'd': _raw_enum(st.get('direction'), TransferDirection),
+                        'st': _raw_enum(st.get('state'), TransferState.State),
                         'lp': st.get('local_path'), 'fs': st.get('filesize'), 'bt': st.get('bytes_transfered'),
                         'fr': st.get('fail_reason'), 'ar': st.get('abort_reason', '!'), 'rq': st.get('remotely_queued')})
     return out
@@ -390,6 +649,33 @@ def _legacy_rewrite(tmp: str, u, p, d, a, o, kk, s):
         return key
 
 
+def _raw_put(tmp: str, key: str, data: bytes):
+    """Environment action: one raw entry appears in the cache file."""
+    with shelve.open(os.path.join(tmp, 'transfers'), flag='c') as sh:
+        sh.dict[key.encode()] = data
+
+
+def _dupkey(tmp: str, u, p, d):
+    """Environment action: the stored entry of identity (u,p,d) is also present under the key of the release before the
+    key fix (one transfer, two keys). Returns None when no entry has this identity."""
+    with shelve.open(os.path.join(tmp, 'transfers'), flag='c') as sh:
+        for key in list(sh.dict.keys()):
+            st = _RawUnpickler(io.BytesIO(sh.dict[key])).load().st
+            if st.get('username') == u and st.get('remote_path') == p and st['direction'].value == d:
+                sh.dict[_pinned_key(u, p, d, old=True).encode()] = sh.dict[key]
+                return key
+    return None
+
+
+def _ambiguous(raw: list[dict]) -> bool:
+    """the cache holds one identity in two entries that differ: which one a load keeps is shelve's order (unspecified)"""
+    seen: dict = {}
+    for r in raw:
+        if seen.setdefault(_id(r), r['h']) != r['h']:
+            return True
+    return False
+
+
 def _new_manager(tmp: str, users: _StubUsers, app=None):
     from aioslsk.transfer.manager import TransferManager
     from aioslsk.transfer.cache import TransferShelveCache
@@ -399,8 +685,9 @@ def _new_manager(tmp: str, users: _StubUsers, app=None):
     if app is not None:
         bus.register(TransferAddedEvent, app.on_added)
         bus.register(TransferRemovedEvent, app.on_removed)
-    mgr = TransferManager(Settings(credentials={'username': 'me', 'password': 'pw'}), bus, users,
-                          types.SimpleNamespace(), types.SimpleNamespace(), cache=TransferShelveCache(tmp))
+    settings = Settings(credentials={'username': 'me', 'password': 'pw'})
+    settings.transfers.limits.upload_slots = 64        # (slot arithmetic is C05's subject: never the limiting factor here)
+    mgr = TransferManager(settings, bus, users, types.SimpleNamespace(), _StubNet(), cache=TransferShelveCache(tmp))
     return mgr, bus
 
 
@@ -431,6 +718,41 @@ async def _run_ops(loop, case: dict, tmp: str):
         """the process ends: whatever is suspended is never resumed"""
         keep.extend(app.pend.values())
         app.pend.clear()
+        if app.load is not None:
+            keep.append(app.load)
+            app.load = None
+
+    def touch(ident):
+        """an operation on this identity is called while `load_data()` is running"""
+        if app.load is not None:
+            app.load.touched.add(tuple(ident))
+
+    def load_outcome(k, idx, ld, extra=None):
+        """where a `load_data()` task stands now: suspended after the entry it has just registered / ended"""
+        n = len(mgr.transfers)
+        ev = {'op': k, 'i': idx, **(extra or {})}
+        if not ld.task.done():
+            if not any(not g.done() for g in ld.gates):
+                ev['phase'] = 'stuck'
+                trace.append(ev)
+                return f'stuck {n} {app.added}'
+            ev.update(phase='loading', registered=[list(i) for i in ld.registered])
+            trace.append(ev)
+            return f'loading {n} {app.added} {_sid(ld.registered[-1])}'
+        app.load = None
+        exc = ld.task.exception() if not ld.task.cancelled() else asyncio.CancelledError()
+        ev.update(phase='ended', touched=sorted(map(list, ld.touched)), wrote=ld.wrote,
+                  registered=[list(i) for i in ld.registered])
+        if exc is not None:
+            ev['error'] = f'{type(exc).__name__}: {exc}'[:200]
+            ev['loaded_before_error'] = n
+            trace.append(ev)
+            return 'error no-state-class' if 'no state class' in str(exc) else f'EXC {k} {type(exc).__name__}'
+        loaded = [_fields(t, mgr) for t in mgr.transfers]
+        ev.update(loaded=loaded, added_events=app.added,
+                  cycle_requested=bool(mgr._management_flags & _RequestFlag.TRANSFER_CHANGE))
+        trace.append(ev)
+        return f'loaded {n} {app.added} ' + '|'.join(_show(f) for f in loaded)
 
     def pending_recs():
         for key, v in app.pend.items():
@@ -455,7 +777,7 @@ async def _run_ops(loop, case: dict, tmp: str):
             return f'announcing {n} {app.removed}'
         return f'stuck {n} {app.removed}'
 
-    for op in case['ops']:
+    for idx, op in enumerate(case['ops']):
         k = op[0]
         try:
             if k == 'new':
@@ -471,8 +793,10 @@ async def _run_ops(loop, case: dict, tmp: str):
                 s = op[1]
                 t = Transfer(s['u'], s['p'], TransferDirection(s['d']))
                 _apply_spec(t, s, loop)
+                app.mine.append(t)
                 ident = _tid(t)
                 trace.append({'op': k})
+                touch(ident)
                 ghost.add_called(ident)
                 if k == 'add':
                     r = await mgr.add(t)
@@ -515,6 +839,7 @@ async def _run_ops(loop, case: dict, tmp: str):
             elif k == 'mut':
                 s = op[1]
                 t = find(mgr, s['u'], s['p'], s['d'])
+                touch((s['u'], s['p'], s['d']))
                 if t is None:
                     obs.append('not-found')
                 else:
@@ -525,6 +850,7 @@ async def _run_ops(loop, case: dict, tmp: str):
                 ident = (op[1], op[2], op[3])
                 t = find(mgr, *ident)
                 trace.append({'op': k})
+                touch(ident)
                 if t is None:
                     obs.append('not-found')
                 elif ('rm', ident) in app.pend:
@@ -567,6 +893,8 @@ async def _run_ops(loop, case: dict, tmp: str):
                         await asyncio.gather(*cancelled, return_exceptions=True)
                     ev['snapshot'] = [_fields(t) for t in mgr.transfers]
                     ev.update(ghost.view())
+                    if app.load is not None:
+                        app.load.wrote = True
                     await mgr.store_data()
                 except Exception as e:
                     obs.append(f'EXC store {type(e).__name__}')
@@ -592,8 +920,29 @@ async def _run_ops(loop, case: dict, tmp: str):
                 else:
                     obs.append('ok')
                     trace.append({'op': 'legacy', 'result': 'ok', 'db_after': _raw_db(tmp)})
+            elif k in ('prev', 'prevc', 'dupkey'):
+                try:
+                    if k == 'prev':       # the entry the pinned writer leaves for this transfer (frozen writer)
+                        sp = op[1]
+                        _raw_put(tmp, _pinned_key(sp['u'], sp['p'], sp['d'], old=bool(op[2])), _pinned_pickle(sp))
+                        found = True
+                    elif k == 'prevc':    # the very bytes the unmodified HEAD writer produced (corpus)
+                        r = corpus()['records'][op[1]]
+                        _raw_put(tmp, r['key'], r['bytes'])
+                        found = True
+                    else:
+                        found = _dupkey(tmp, op[1], op[2], op[3])
+                except Exception as e:
+                    raise _HarnessError(f'{k} failed: {e!r}') from e
+                if found is None:
+                    obs.append('not-found')
+                    trace.append({'op': k, 'result': 'not-found'})
+                else:
+                    obs.append('ok')
+                    trace.append({'op': k, 'result': 'ok', 'db_after': _raw_db(tmp)})
             elif k == 'restart':
                 abandon()
+                raw = _raw_db(tmp)
                 app = _App(loop, ghost)
                 mgr, bus = _new_manager(tmp, users, app)
                 keep.append((bus, app))
@@ -605,15 +954,59 @@ async def _run_ops(loop, case: dict, tmp: str):
                         obs.append('error no-state-class')
                     else:
                         obs.append(f'EXC restart {type(e).__name__}')
-                    trace.append({'op': 'restart', 'error': f'{type(e).__name__}: {e}'[:200],
+                    trace.append({'op': 'restart', 'i': idx, 'error': f'{type(e).__name__}: {e}'[:200],
                                   'loaded_before_error': len(mgr.transfers)})
                     # the model's manager is empty after a failed load; make sure the real one is too
                     continue
                 ghost.restarted([_tid(t) for t in mgr.transfers])
                 loaded = [_fields(t, mgr) for t in mgr.transfers]
                 obs.append(f'loaded {len(mgr.transfers)} {app.added} ' + '|'.join(_show(f) for f in loaded))
-                trace.append({'op': 'restart', 'loaded': loaded, 'added_events': app.added,
+                trace.append({'op': 'restart', 'i': idx, 'loaded': loaded, 'added_events': app.added,
+                              'ambiguous': _ambiguous(raw),
                               'cycle_requested': bool(mgr._management_flags & _RequestFlag.TRANSFER_CHANGE)})
+            elif k == 'restartc':
+                # the process ends; a new one runs load_data() as its own task, next to whatever else the application does
+                abandon()
+                raw = _raw_db(tmp)
+                app = _App(loop, ghost)
+                mgr, bus = _new_manager(tmp, users, app)
+                keep.append((bus, app))
+                ghost.restarted([])
+                ld = _Pend()
+                app.load = ld
+                ld.task = loop.create_task(mgr.load_data())
+                await simloop.settle()
+                obs.append(load_outcome(k, idx, ld, {'order': [list(_id(r)) for r in raw], 'ambiguous': _ambiguous(raw)}))
+            elif k == 'loadr':
+                ld = app.load
+                if ld is None:
+                    obs.append('no-pending')
+                    trace.append({'op': k, 'i': idx, 'phase': 'none'})
+                else:
+                    for g in [g for g in ld.gates if not g.done()]:
+                        g.set_result(None)
+                    await simloop.settle()
+                    obs.append(load_outcome(k, idx, ld))
+            elif k == 'cycle':
+                # what client.start() does after load_data(): the services start; the first management cycle runs
+                users.offline = set(op[1])
+                net = mgr._network
+                del net.sent[:]
+                snapshot = [_fields(t) for t in mgr.transfers]
+                n_exc = len(loop.exceptions)
+                await mgr.start()
+                await simloop.settle()
+                sent = [list(x) for x in net.sent]
+                cancelled = await mgr.stop()
+                await asyncio.gather(*cancelled, return_exceptions=True)
+                dl = sorted({(u, fn, 1) for u, cls, fn in sent if cls == 'PeerTransferQueue'})
+                ul = [[u, fn] for u, cls, fn in sent if cls == 'PeerTransferRequest']
+                obs.append('dl=' + '|'.join(f'{_xs(u)},{_xs(fn)},{d}' for u, fn, d in dl) +
+                           ' ul=' + '|'.join(_xs(u) for u, _fn in ul))
+                trace.append({'op': 'cycle', 'offline': sorted(op[1]), 'dl': [list(x) for x in dl],
+                              'ul': [[u, fn, 0, ST_INIT] for u, fn in ul], 'sent': sent, 'transfers': snapshot,
+                              # the stub does not stand for the network the code talks to (not judged then)
+                              'undrivable': sorted(set(net.unknown)) + [e['exception'] for e in loop.exceptions[n_exc:]]})
             elif k == 'sched':
                 users.offline = set(op[1])
                 dl, ul = mgr._get_queued_transfers()
@@ -631,14 +1024,23 @@ async def _run_ops(loop, case: dict, tmp: str):
             trace.append({'op': k, 'error': f'{type(e).__name__}: {e}'[:200]})
 
     # whatever is still suspended in the live manager resumes (a suspended abort holds the transfer's state lock)
-    for _ in range(8):
-        recs = [r for r in pending_recs() if r.gate is not None and not r.gate.done()]
-        if not recs:
+    for _ in range(80):
+        gates = [r.gate for r in pending_recs() if r.gate is not None and not r.gate.done()]
+        if app.load is not None and not app.load.task.done():
+            gates += [g for g in app.load.gates if not g.done()]
+        if not gates:
             break
-        for r in recs:
-            r.gate.set_result(None)
+        for g in gates:
+            g.set_result(None)
         await simloop.settle()
     keep.extend(app.pend.values())
+    if app.load is not None:
+        ld = app.load
+        if ld.task.done():
+            load_outcome('load-end', len(case['ops']), ld)       # judged by the monitor like any other ended load
+        else:
+            keep.append(ld)
+            trace.append({'op': 'load-end', 'error': 'load_data() did not end after 80 resumptions'})
 
     # monitor-only: does a later state change of every transfer reach the manager?
     poke = []
@@ -903,11 +1305,84 @@ def _gen_sweep(rng: random.Random) -> dict:
             'ticker_first': rng.random() < 0.5, 'exec_defer': rng.random() < 0.5, 'stop': rng.random() < 0.3}
 
 
+async def _run_loadsweep(loop, case: dict, root: str):
+    """`load_data()` of a fresh manager next to tasks that call the public API for entries of the cache."""
+    from aioslsk.transfer.model import Transfer, TransferDirection
+    data = os.path.join(root, 'data')
+    os.mkdir(data)
+    users = _StubUsers()
+    keep: list = []
+    errors: list = []
+    # session 1 leaves the cache (written by the tree under test, or by the pinned writer)
+    if case['writer'] == 'tree':
+        m1, b1 = _new_manager(data, users, None)
+        for sp in case['cache']:
+            t = Transfer(sp['u'], sp['p'], TransferDirection(sp['d']))
+            _apply_spec(t, sp, loop)
+            await m1.add(t)
+        await m1.store_data()
+    else:
+        for sp in case['cache']:
+            _raw_put(data, _pinned_key(sp['u'], sp['p'], sp['d']), _pinned_pickle(sp))
+    for k in case['dupkeys']:
+        sp = case['cache'][k]
+        _dupkey(data, sp['u'], sp['p'], sp['d'])
+    raw = _raw_db(data)
+
+    class App:
+        added = 0
+
+        async def on_added(self, event):           # a listener that hands the event on (queue / UI / database): it yields
+            self.added += 1
+            for _ in range(case['slow']):
+                await asyncio.sleep(0)
+
+        async def on_removed(self, event):
+            pass
+
+    app = App()
+    m2, b2 = _new_manager(data, users, app)
+    keep.append((b2, app))
+
+    async def wish(w):
+        for _ in range(w['delay']):
+            await asyncio.sleep(0)
+        u, p, _d = w['id']
+        if case['how'] == 'download':
+            await m2.download(u, p)
+        else:
+            await m2.add(Transfer(u, p, TransferDirection.DOWNLOAD))
+
+    coros = [m2.load_data()] + [wish(w) for w in case['wish']]
+    if not case['load_first']:
+        coros = coros[1:] + coros[:1]
+    tasks = [loop.create_task(c) for c in coros]
+    for r in await asyncio.gather(*tasks, return_exceptions=True):
+        if isinstance(r, BaseException):
+            errors.append(f'{type(r).__name__}: {r}'[:200])
+    await simloop.settle()
+    ev = {'op': 'loadsweep', 'cache': [list(_id(r)) for r in raw], 'wish': [w['id'] for w in case['wish']],
+          'listed': [list(_tid(t)) for t in m2.transfers], 'added_events': app.added, 'errors': errors,
+          'corrupt': any(r['st'] == -1 for r in raw)}
+    try:
+        await m2.store_data()
+        m3, b3 = _new_manager(data, users, None)
+        await m3.load_data()
+        ev['after_restart'] = [list(_tid(t)) for t in m3.transfers]
+    except Exception as e:
+        ev['errors'].append(f'{type(e).__name__}: {e}'[:200])
+    for t in list(m2.transfers):
+        keep.extend(t.cancel_tasks())
+    return [], [ev]
+
+
 def _run_impl(case: dict):
     tmp = tempfile.mkdtemp(prefix='c17-', dir='/dev/shm' if os.path.isdir('/dev/shm') else None)
     try:
         if case.get('kind') == 'sweep':
             (obs, trace), _loop = simloop.run(_run_sweep, case, tmp, wall_timeout=120.0)
+        elif case.get('kind') == 'loadsweep':
+            (obs, trace), _loop = simloop.run(_run_loadsweep, case, tmp, wall_timeout=120.0)
         else:
             (obs, trace), _loop = simloop.run(_run_ops, case, tmp, wall_timeout=120.0)
         return obs, trace
@@ -939,20 +1414,25 @@ def _id(f) -> tuple:
 
 
 def _check_restart(flag, baseline: list, ghost: Optional[dict], loaded: list, where: str = 'a restart',
-                   told: Optional[list] = None):
+                   told: Optional[list] = None, touched=()):
     """The statement at one restart. `baseline`: attributes of the public list at the instant of the last write (or the
-    raw records after an environment rewrite); `ghost`: what had been reported to the user at that instant (None after
-    an environment rewrite); `loaded`: what the fresh manager holds."""
+    raw records after an environment rewrite — these may hold one identity under two keys); `ghost`: what had been reported
+    to the user at that instant (None after an environment rewrite); `loaded`: what the fresh manager holds; `touched`:
+    identities for which other operations were called while the load was running (judged on "each once" only)."""
+    if any(not (isinstance(f['u'], str) and isinstance(f['p'], str) and isinstance(f['d'], int)) for f in baseline):
+        return                 # raw entries whose identity the harness cannot read (a format it does not know): not judged
     want, got = Counter(_id(f) for f in baseline), Counter(_id(f) for f in loaded)
-    if any(c > 1 for c in want.values()):
-        return                 # the cache itself held one identity twice (not generated)
+    touched = {tuple(i) for i in touched}
     there = {tuple(i) for i in ghost['there']} if ghost else set()
     gone = {tuple(i) for i in ghost['gone']} if ghost else set()
     inflight = {tuple(i) for i in ghost['inflight']} if ghost else set()
     for ident in sorted(set(want) | set(got) | there | gone, key=repr):
         if got[ident] > 1:
-            flag('C17-transfer-duplicated', f'transfer {ident!r} is present {got[ident]} times after {where}',
+            flag('C17-transfer-duplicated', f'transfer {ident!r} is present {got[ident]} times after {where}'
+                 + (f' (the cache held it under {want[ident]} keys)' if want[ident] > 1 else ''),
                  observed=got[ident], required=1)
+        if ident in touched:
+            continue
         if ident in gone:
             if got[ident]:
                 flag('C17-removed-transfer-back', f'the removal of {ident!r} had been reported (TransferRemovedEvent '
@@ -972,11 +1452,26 @@ def _check_restart(flag, baseline: list, ghost: Optional[dict], loaded: list, wh
         elif got[ident] and not want[ident]:
             flag('C17-removed-transfer-back', f'transfer {ident!r} is not in the stored list but was loaded',
                  observed=sorted(map(repr, got)), required=sorted(map(repr, want)))
-    by_id = {_id(f): f for f in baseline}
+    by_id = defaultdict(list)
+    for f in baseline:
+        by_id[_id(f)].append(f)
     for f in loaded:
-        b = by_id.get(_id(f))
-        if b is None or got[_id(f)] != 1:
+        cands = by_id.get(_id(f))
+        if not cands or got[_id(f)] != 1 or _id(f) in touched:
             continue
+        # one identity under two keys: the loaded transfer is the image of ONE of the entries (which one is shelve's order)
+        results = []
+        for b in cands:
+            local: list = []
+            _check_one(lambda *a, **kw: local.append((a, kw)), f, b, where, told)
+            results.append(local)
+        for a, kw in min(results, key=len):
+            flag(*a, **kw)
+
+
+def _check_one(flag, f: dict, b: dict, where: str, told: Optional[list]):
+    """one loaded transfer `f` against the stored entry `b` it comes from"""
+    if True:
         for fld in ('lp', 'fs', 'bt', 'fr'):
             if f[fld] != b[fld]:
                 flag('C17-field-changed', f'{fld} of {_id(f)!r} changed over {where}',
@@ -987,6 +1482,8 @@ def _check_restart(flag, baseline: list, ghost: Optional[dict], loaded: list, wh
             flag('C17-field-changed', f'abort_reason of {_id(f)!r} changed over {where}',
                  observed=f['ar'], required=bar)
         bst = b['st']
+        if not isinstance(bst, int):
+            bst = f['st'] if f['st'] not in IN_PROGRESS else None     # stored state not understood: only "in progress" is judged
         if told is not None and tuple(told[0]) == _id(f) and f['st'] != _expected_state(told[1], b['fs'], b['bt']):
             # the cache was written by a state listener that had just been told the new state
             flag('C17-state-not-as-reported', f'{_id(f)!r}: the state listener that wrote the cache had been told state '
@@ -1000,7 +1497,8 @@ def _check_restart(flag, baseline: list, ghost: Optional[dict], loaded: list, wh
                  f'bytes {b["bt"]}) became {f["st"]}', observed=f['st'],
                  required=_expected_state(bst, b['fs'], b['bt']))
         if f['rq'] is not False:
-            flag('C17-remote-queue-mark-kept', f'{_id(f)!r}: remotely_queued = {f["rq"]!r} after load',
+            flag('C17-remote-queue-mark-kept', f'{_id(f)!r}: remotely_queued = {f["rq"]!r} after load'
+                 + (' (the stored entry carried the mark)' if b.get('rq') else ''),
                  observed=f['rq'], required=False)
         if f['ls'] != '1/1':
             flag('C17-not-listening', f'{_id(f)!r}: state_listeners (len/manager) = {f["ls"]} after load',
@@ -1019,9 +1517,10 @@ def _monitor(case: dict, trace: list) -> list[Violation]:
     baseline: list[dict] = []      # what the cache is supposed to hold (persisted attribute values)
     ghost: Optional[dict] = None   # what had been reported when the cache was last written
     fresh_restart = False          # a sched op directly after a successful restart
+    load_base: tuple = ([], None)  # (baseline, ghost) at the start of the phased load that is running
     for ev in trace:
         k = ev['op']
-        if 'error' in ev and k not in ('restart', 'probe'):
+        if 'error' in ev and k not in ('restart', 'probe', 'restartc', 'loadr', 'load-end'):
             flag('C17-impl-raised', f'{k} raised {ev["error"]}', observed=ev['error'])
             if k == 'store':
                 fresh_restart = False
@@ -1033,10 +1532,35 @@ def _monitor(case: dict, trace: list) -> list[Violation]:
         elif k == 'store':
             baseline = [dict(f) for f in ev['snapshot']]
             ghost = {x: ev[x] for x in ('there', 'gone', 'inflight')} if 'there' in ev else None
-        elif k == 'legacy':
+        elif k in ('legacy', 'prev', 'prevc', 'dupkey'):
             if ev['result'] == 'ok':
                 baseline = [dict(f) for f in ev['db_after']]
                 ghost = None
+        elif k in ('restartc', 'loadr', 'load-end'):
+            # load_data() running next to other operations, suspended in TransferAddedEvent listeners
+            if k == 'restartc':
+                fresh_restart = False
+                load_base = ([dict(f) for f in baseline], ghost)
+            if ev.get('phase') != 'ended':
+                if k == 'load-end':
+                    flag('C17-load-raised', ev.get('error', 'load_data() did not end'), observed=ev.get('error'))
+                continue
+            lb, lg = load_base
+            corrupt = any(f['st'] == -1 for f in lb)
+            if 'error' in ev:
+                if not corrupt:
+                    flag('C17-load-raised', f'load_data() raised {ev["error"]} on a cache holding {len(lb)} '
+                         'well-formed transfers', observed=ev['error'])
+                continue
+            if corrupt:
+                continue
+            _check_restart(flag, lb, lg, ev['loaded'], touched=ev['touched'],
+                           where='a load_data() that ran next to other operations (suspended in TransferAddedEvent '
+                                 f'listeners after each of {len(ev["registered"])} entries)' if ev['registered'] else
+                                 'a load_data() run as its own task')
+            if not ev['wrote']:
+                ghost = None       # (a write made meanwhile set its own baseline)
+            fresh_restart = not ev['touched']
         elif k == 'restart':
             fresh_restart = False
             corrupt = any(f['st'] == -1 for f in baseline)
@@ -1060,9 +1584,11 @@ def _monitor(case: dict, trace: list) -> list[Violation]:
                 continue
             _check_restart(flag, ev['snapshot'], {x: ev[x] for x in ('there', 'gone', 'inflight')}, ev['loaded'],
                            where=where, told=ev.get('told'))
-        elif k == 'sched':
-            if not fresh_restart:
+        elif k in ('sched', 'cycle'):
+            if not fresh_restart or ev.get('undrivable'):
                 continue
+            how = ('the scheduler' if k == 'sched' else
+                   'the first management cycle of the started manager (no PeerTransferQueue / PeerTransferRequest sent)')
             off = set(ev['offline'])
             dl = {tuple(x) for x in ev['dl']}
             ul_users = {x[0] for x in ev['ul']}
@@ -1071,11 +1597,31 @@ def _monitor(case: dict, trace: list) -> list[Violation]:
                     continue
                 if f['d'] == 1 and (f['st'] in (ST_QUEUED, ST_INCOMPLETE) or (f['st'] == ST_FAILED and f['fr'] is None)):
                     if _id(f) not in dl:
-                        flag('C17-not-scheduled', f'loaded download {_id(f)!r} (state {f["st"]}) is not picked up by '
-                             'the scheduler', observed=sorted(map(repr, dl)))
+                        flag('C17-not-scheduled', f'loaded download {_id(f)!r} (state {f["st"]}, remotely_queued '
+                             f'{f["rq"]!r}) is not picked up by {how}', observed=sorted(map(repr, dl)))
                 if f['d'] == 0 and f['st'] == ST_QUEUED and f['u'] not in ul_users:
-                    flag('C17-not-scheduled', f'no queued upload of user {f["u"]!r} is picked up by the scheduler',
+                    flag('C17-not-scheduled', f'no queued upload of user {f["u"]!r} is picked up by {how}',
                          observed=sorted(ul_users))
+            if k == 'cycle':
+                fresh_restart = False      # the cycle has started transfers
+        elif k == 'loadsweep':
+            for e in ev['errors']:
+                flag('C17-load-raised', f'load_data() / download() running next to each other raised {e}', observed=e)
+            if ev['corrupt'] or ev['errors']:
+                continue
+            must = {tuple(i) for i in ev['cache']} | {tuple(i) for i in ev['wish']}
+            for label, lst in (('after load_data() ran next to download() / add() calls for entries of the cache',
+                                ev['listed']), ('after the next write + restart', ev.get('after_restart'))):
+                if lst is None:
+                    continue
+                got = Counter(tuple(i) for i in lst)
+                for ident in sorted(must | set(got), key=repr):
+                    if got[ident] > 1:
+                        flag('C17-transfer-duplicated', f'the manager holds transfer {ident!r} {got[ident]} times {label}',
+                             observed=got[ident], required=1)
+                    elif not got[ident] and ident in must:
+                        flag('C17-transfer-lost', f'transfer {ident!r} (in the cache / asked for) is not listed {label}',
+                             observed=sorted(map(repr, got)), required=f'{ident!r} present')
         elif k == 'poke':
             for r in ev['results']:
                 if 'error' in r:
@@ -1243,11 +1789,193 @@ def _gen_phased(rng: random.Random) -> dict:
     return {'kind': 'phased', 'ops': ops}
 
 
+def _fresh_spec(ident: tuple) -> dict:
+    """a transfer as `download()` / an incoming queue request creates it"""
+    return {'u': ident[0], 'p': ident[1], 'd': ident[2], 'st': 0, 'lp': None, 'fs': None, 'bt': 0, 'fr': None, 'ar': None,
+            'rq': False, 'piq': None, 'qa': 0, 'lqa': 0, 'ura': 0, 'lura': 0, 'stt': None, 'ct': None, 'off': False, 'tk': 0}
+
+
+def _gen_prev_spec(rng: random.Random, ident: tuple) -> dict:
+    """attributes of a transfer as the previous release stored it: the remote-queue mark is set more often than not
+    (downloads waiting in a peer's queue at shutdown are the commonest content of a cache), in every state"""
+    sp = _gen_spec(rng, ident)
+    sp['tk'] = 0
+    sp['rq'] = rng.random() < 0.65
+    return sp
+
+
+def _offline(rng: random.Random, idents) -> list:
+    return [u for u in sorted({i[0] for i in idents}) if rng.random() < 0.2]
+
+
+def _gen_prevrel(rng: random.Random) -> dict:
+    """a cache left by the previous release (pinned writer), alone or next to entries the tree under test wrote itself"""
+    ops: list = []
+    idents: list[tuple] = []
+    if rng.random() < 0.4:
+        for _ in range(rng.randint(1, 4)):
+            ident = _gen_ident(rng)
+            ops.append(['add', _gen_spec(rng, ident)])
+            if ident not in idents:
+                idents.append(ident)
+        ops.append(['store'])
+    ncorp = len(corpus()['records'])
+    for _ in range(rng.randint(1, 6)):
+        if rng.random() < 0.3:
+            i = rng.randrange(ncorp)
+            sp = corpus()['records'][i]['spec']
+            ident = (sp['u'], sp['p'], sp['d'])
+            ops.append(['prevc', i])
+        else:
+            ident = rng.choice(idents) if idents and rng.random() < 0.2 else _gen_ident(rng)
+            old = ident not in idents and rng.random() < 0.15
+            ops.append(['prev', _gen_prev_spec(rng, ident), old])
+        if ident not in idents:
+            idents.append(ident)
+    ops += [['restart'], ['sched', _offline(rng, idents)]]
+    r = rng.random()
+    if r < 0.5:
+        ops.append(['cycle', _offline(rng, idents)])
+    elif r < 0.8:
+        ops += [['store'], ['restart'], ['sched', _offline(rng, idents)], ['cycle', _offline(rng, idents)]]
+    else:
+        for ident in idents:
+            if rng.random() < 0.4:
+                ops.append(['mut', _gen_spec(rng, ident)])
+        if rng.random() < 0.5:
+            ops.append(['rm', *rng.choice(idents)])
+        ops += [['store'], ['restart'], ['sched', _offline(rng, idents)]]
+    return {'kind': 'prevrel', 'ops': ops}
+
+
+def _gen_dupkeys(rng: random.Random) -> dict:
+    """one transfer under both key formats in one file (a cache both releases wrote to)"""
+    ops: list = []
+    idents: list[tuple] = []
+    for _ in range(rng.randint(1, 6)):
+        ident = _gen_ident(rng)
+        if ident not in idents:
+            idents.append(ident)
+            ops.append(['add', _gen_spec(rng, ident)])
+    ops.append(['store'])
+    n = 0
+    for ident in idents:
+        if rng.random() < 0.55:
+            ops.append(['dupkey', *ident])
+            n += 1
+    if not n:
+        ops.append(['dupkey', *idents[0]])
+    if rng.random() < 0.15:
+        ops.append(['dupkey', 'nobody', 'nothing', 0])
+    if rng.random() < 0.25:
+        # the old-key entry differs from the new-key one: which one a load keeps is shelve's order (monitor only from here)
+        ops.append(['prev', _gen_prev_spec(rng, rng.choice(idents)), True])
+    ops += [['restart'], ['sched', _offline(rng, idents)]]
+    if rng.random() < 0.6:
+        ops += [['store'], ['restart'], ['sched', _offline(rng, idents)]]
+    ops.append(['cycle', _offline(rng, idents)])
+    return {'kind': 'dupkeys', 'ops': ops}
+
+
+def _gen_phasedload(rng: random.Random) -> dict:
+    """`load_data()` suspended in the TransferAddedEvent listener after every entry it registers; add() / remove() /
+    attribute changes / writes for entries it has (not) reached in between; then to its end (or the end of the process)."""
+    ops: list = []
+    cache: list[tuple] = []
+    for _ in range(rng.randint(2, 6)):
+        ident = _gen_ident(rng)
+        if ident not in cache:
+            cache.append(ident)
+            ops.append(['add', _gen_spec(rng, ident)])
+    ops.append(['store'])
+    for ident in list(cache):
+        if rng.random() < 0.2:
+            ops.append(['dupkey', *ident])
+    for _ in range(rng.choice([0, 0, 1, 2])):
+        ident = _gen_ident(rng)
+        if ident not in cache:
+            cache.append(ident)
+            ops.append(['prev', _gen_prev_spec(rng, ident), False])
+    ops.append(['restartc'])
+    pend_add: list[tuple] = []
+    pend_rm: list[tuple] = []
+    for _ in range(rng.randint(2, 10)):
+        r = rng.random()
+        if r < 0.33:
+            ops.append(['loadr'])
+        elif r < 0.66:
+            ident = rng.choice(cache) if rng.random() < 0.8 else _gen_ident(rng)
+            sp = _fresh_spec(ident) if rng.random() < 0.6 else _gen_spec(rng, ident)
+            if rng.random() < 0.5:
+                ops.append(['add', sp])
+            else:
+                ops.append(['addc', sp])
+                pend_add.append(ident)
+        elif r < 0.72 and pend_add:
+            ops.append(['addr', *pend_add.pop(rng.randrange(len(pend_add)))])
+        elif r < 0.79:
+            ops.append(['mut', _gen_spec(rng, rng.choice(cache))])
+        elif r < 0.87:
+            ops.append(['store', 'stop'] if rng.random() < 0.15 else ['store'])
+        elif r < 0.93:
+            ident = rng.choice(cache)
+            if rng.random() < 0.5:
+                ops.append(['rm', *ident])
+            else:
+                ops.append(['rmc', *ident])
+                pend_rm.append(ident)
+        elif r < 0.96 and pend_rm:
+            ops.append(['rms', *rng.choice(pend_rm)])
+        else:
+            # (no `sched` here: a removal suspended in its abort holds the transfer's state lock, which the scheduler
+            # respects and the model's `eligible` does not know about)
+            ops.append(['loadr'])
+    r = rng.random()
+    if r < 0.8:
+        ops += [['loadr'] for _ in range(len(cache) + 1)]
+        if r < 0.6:
+            ops += [['store'], ['restart'], ['sched', _offline(rng, cache)], ['cycle', _offline(rng, cache)]]
+        else:
+            # (no `cycle` here: transfers the harness added itself may hold task handles, which the first cycle respects
+            # and the model's `eligible` does not know about)
+            ops += [['sched', _offline(rng, cache)]]
+    else:
+        # the process ends while the load is still suspended
+        ops += [['store'], ['restart'], ['sched', _offline(rng, cache)]]
+    return {'kind': 'phasedload', 'ops': ops}
+
+
+def _gen_loadsweep(rng: random.Random) -> dict:
+    """monitor only: `load_data()` next to tasks that call the public `download()` / `add()` for entries of the cache (an
+    application restoring its wish list next to `client.start()`), TransferAddedEvent listeners that really yield"""
+    idents: list[tuple] = []
+    for _ in range(rng.randint(2, 7)):
+        ident = _gen_ident(rng)
+        ident = (ident[0], ident[1], 1 if rng.random() < 0.8 else ident[2])
+        if ident not in idents:
+            idents.append(ident)
+    specs = [{**_gen_spec(rng, i), 'tk': 0} for i in idents]
+    wish = [{'id': list(i), 'delay': rng.choice([0, 0, 1, 2, 3, 5, 8])} for i in idents if i[2] == 1 and rng.random() < 0.65]
+    if rng.random() < 0.3:
+        i = _gen_ident(rng)
+        wish.append({'id': [i[0], i[1], 1], 'delay': rng.choice([0, 1, 4])})
+    return {'kind': 'loadsweep', 'cache': specs, 'dupkeys': [k for k in range(len(idents)) if rng.random() < 0.15],
+            'wish': wish, 'slow': rng.choice([0, 1, 1, 2, 3]), 'how': rng.choice(['download', 'download', 'add']),
+            'writer': rng.choice(['tree', 'tree', 'pinned']), 'load_first': rng.random() < 0.6}
+
+
 def _gen_case(rng: random.Random) -> dict:
     kind = rng.choice(['roundtrip', 'roundtrip', 'sequence', 'sequence', 'sequence', 'legacy', 'legacy',
-                       'migration', 'migration', 'malformed', 'phased', 'phased', 'phased', 'phased'])
+                       'migration', 'migration', 'malformed', 'phased', 'phased', 'phased', 'phased',
+                       'prevrel', 'prevrel', 'prevrel', 'dupkeys', 'phasedload', 'phasedload', 'phasedload'])
     if kind == 'phased':
         return _gen_phased(rng)
+    if kind == 'prevrel':
+        return _gen_prevrel(rng)
+    if kind == 'dupkeys':
+        return _gen_dupkeys(rng)
+    if kind == 'phasedload':
+        return _gen_phasedload(rng)
     n = rng.choice([0, 1, 2, 3, 4, 5, 6, 7, 8, 8])
     ops: list = []
     idents: list[tuple] = []          # identities currently in the manager, in list order
@@ -1269,6 +1997,8 @@ def _gen_case(rng: random.Random) -> dict:
         add()
     if kind == 'roundtrip':
         ops += [['store'], ['restart'], ['sched', offline()]]
+        if rng.random() < 0.5:
+            ops.append(['cycle', offline()])
     elif kind == 'sequence':
         ops.append(['store'])
         for _ in range(rng.randint(1, 8)):
@@ -1351,7 +2081,11 @@ def _idents_after(ops: list) -> list[tuple]:
         elif k == 'legacy':
             if op[7] and (op[1], op[2], op[3]) in db:
                 corrupt = True
-        elif k == 'restart':
+        elif k in ('prev', 'prevc'):
+            sp = op[1] if k == 'prev' else corpus()['records'][op[1]]['spec']
+            if (sp['u'], sp['p'], sp['d']) not in db:
+                db.append((sp['u'], sp['p'], sp['d']))
+        elif k in ('restart', 'restartc'):
             mgr = [] if corrupt else list(db)
     return mgr
 
@@ -1385,23 +2119,57 @@ WITNESS_WRITE_IN_REMOVED = {'kind': 'witness-write-in-removed-listener',
                                     ['restart'], ['rmc', 'bob', 'done.mp3', 1], ['store'], ['restart'], ['sched', []]]}
 WITNESS_WRITE_IN_ADDED = {'kind': 'witness-write-in-added-listener',
                           'ops': [['addc', _w('alice', 'new.mp3', 1, 0)], ['store'], ['restart'], ['sched', []]]}
-WITNESSES = [WITNESS_COLLISION, WITNESS_MIGRATION, WITNESS_WRITE_IN_REMOVED, WITNESS_WRITE_IN_ADDED]
+# a cache of the previous release: downloads that were waiting in a peer's queue at shutdown (mark set), in several states
+WITNESS_PREV_RELEASE = {'kind': 'witness-previous-release-cache',
+                        'ops': [['prev', {**_w('alice', '@@abc\\music\\01.mp3', 1, 0), 'rq': True}, False],
+                                ['prev', {**_w('bob', '@@xyz\\set.flac', 4, 40), 'rq': True}, False],
+                                ['prev', {**_w('carol', 'old\\key.mp3', 10, 0), 'rq': True}, True],
+                                ['prevc', 0], ['restart'], ['sched', []], ['cycle', []]]}
+# one transfer under both key formats in one file
+WITNESS_TWO_KEYS = {'kind': 'witness-one-transfer-two-keys',
+                    'ops': [['add', _w('bob', 'x\\y.flac', 4, 40)], ['add', _w('alice', 'a.mp3', 1, 0)], ['store'],
+                            ['dupkey', 'bob', 'x\\y.flac', 1], ['restart'], ['sched', []], ['store'], ['restart']]}
+# download() of an entry the suspended read has not reached yet (whichever entry comes first, the other is added meanwhile)
+WITNESS_LOAD_RACE = {'kind': 'witness-add-during-load',
+                     'ops': [['add', _w('bob', 'x\\y.flac', 4, 40)], ['add', _w('alice', 'a.mp3', 1, 0)], ['store'],
+                             ['restartc'], ['add', _fresh_spec(('bob', 'x\\y.flac', 1))],
+                             ['add', _fresh_spec(('alice', 'a.mp3', 1))], ['loadr'], ['loadr'], ['loadr'],
+                             ['store'], ['restart'], ['sched', []]]}
+WITNESSES = [WITNESS_COLLISION, WITNESS_MIGRATION, WITNESS_WRITE_IN_REMOVED, WITNESS_WRITE_IN_ADDED,
+             WITNESS_PREV_RELEASE, WITNESS_TWO_KEYS, WITNESS_LOAD_RACE]
+
+
+def _corpus_cases() -> list[dict]:
+    """every record of the corpus is loaded in every run: 8 at a time, then the scheduler's view and the first cycle"""
+    n = len(corpus()['records'])
+    idx = list(range(n))
+    random.Random('C17-corpus').shuffle(idx)
+    return [{'kind': 'corpus', 'ops': [['prevc', i] for i in idx[a:a + 8]] + [['restart'], ['sched', []], ['cycle', []]]}
+            for a in range(0, n, 8)]
 
 
 class C17(Property):
     id = 'C17'
     props_module = 'AioslskVerif.Props.C17'
     driver_module = 'AioslskVerif.Driver.C17'
-    rule = ('op sequences (add / mut / rm / store / legacy-rewrite / restart / sched) over lists of 0..8 transfers, every '
-            'state x direction, field values from boundary sets (every persisted field has its falsy legal value: 0, '
-            "0.0, '', False), names drawn so that plain concatenations collide; phased sequences (addc / addr / rmc / "
-            'rms: add() and remove() suspended in their listeners, with mut / further operations / store / stop+store / '
-            'restart in between); sweeps (monitor only): concurrent add / remove / real state transitions with writing '
+    rule = ('op sequences (add / mut / rm / store / legacy-rewrite / restart / sched / cycle = the first management cycle of '
+            'the started manager) over lists of 0..8 transfers, every state x direction, field values from boundary sets (every '
+            "persisted field has its falsy legal value: 0, 0.0, '', False), names drawn so that plain concatenations collide; "
+            'phased sequences (addc / addr / rmc / rms: add() and remove() suspended in their listeners, with mut / further '
+            'operations / store / stop+store / restart in between); caches of ANOTHER release of the writer (prev: the entry '
+            'the pinned __getstate__ leaves, remote-queue mark set in every state, under the current / the pre-fix key; prevc: '
+            'the 200 records of corpus/C17 written by the unmodified HEAD writer, all of them loaded in every run; dupkey: one '
+            'transfer under both key formats); phased loads (restartc / loadr: load_data() suspended in the TransferAddedEvent '
+            'listener after every entry it registers, add / addc / mut / rm / rmc / store for entries it has (not) reached in '
+            'between); sweeps (monitor only): concurrent add / remove / real state transitions with writing '
             'and suspending listeners, slowly dying tasks, a deferred executor, a write + crash at every loop iteration; '
-            'all derived from VERIF_SEED. A case is non-trivial when a restart loaded at least one transfer and the '
-            'cache held an in-progress state, a pair of colliding concatenations, a legacy/old-key record, or was '
-            'written while an operation was suspended; a sweep when a probe taken while an operation was in flight '
-            'loaded at least one transfer; distinct = distinct canonical case')
+            'loadsweeps (monitor only): load_data() next to tasks calling download() / add() for entries of the cache, '
+            'yielding listeners; all derived from VERIF_SEED. A case is non-trivial when a restart loaded at least one transfer '
+            'and the cache held an in-progress state, a pair of colliding concatenations, a legacy / old-key / other-writer / '
+            'two-key record, or was written while an operation was suspended, or when operations were called for identities of '
+            'the cache while a load was suspended; a sweep when a probe taken while an operation was in flight '
+            'loaded at least one transfer; a loadsweep when a download() of a cache entry ran next to a load with yielding '
+            'listeners; distinct = distinct canonical case')
     assumptions = [
         'sha256 is injective on the hashed strings that occur (theorems take `Function.Injective H` as a hypothesis; '
         'the correspondence compares sha256(model key bytes) with the real database keys)',
@@ -1414,16 +2182,27 @@ class C17(Property):
         'list.remove and a second TransferRemovedEvent; not part of this property); every other overlap is generated',
         'the ghost sets say nothing about an identity while an add()/remove() of it is in progress and has reported '
         'nothing yet, nor after an add() called during a removal in progress (either outcome is accepted there)',
+        '"the previous release" = the writer pinned by theorem C17_fields_pinned (HEAD: the whole __dict__ minus '
+        '_UNPICKABLE_FIELDS, state by value); the harness keeps a frozen copy of it that reproduces byte for byte the 200 '
+        'records of corpus/C17/head-writer-records.json, which the unmodified HEAD TransferShelveCache.write produced',
+        'the order in which shelve hands out the entries is the environment\'s: a phased load tells it to the model; a cache '
+        'holding one identity in two DIFFERING entries is judged by the monitor only (either entry may be the one kept)',
+        'for identities for which other operations are called while load_data() is running only "listed exactly once" is '
+        'judged (on HEAD an add()/download() racing with the load wins over the not-yet-reached cache entry; a write_cache() '
+        'made meanwhile stores the list as far as it has been loaded)',
     ]
     modelled = ('transfer/cache.py read/write (with fixes/C17-cache-key-ambiguous.patch), Transfer.__getstate__/'
                 '__setstate__/__eq__/is_transfered, TransferState.init_from_state, TransferManager.read_cache/add and the '
                 'selection part of _get_queued_transfers; TransferManager.add/remove split at their suspension points '
                 '(TransferAddedEvent delivery, state listeners of the abort transition, TransferRemovedEvent delivery) '
                 'with write_cache() and the end of the process at each of them, the abort() of the state classes '
-                '(generated table), ghost sets of what was reported; state sets, enum values, field lists regenerated '
+                '(generated table), ghost sets of what was reported; TransferManager.read_cache split at ITS suspension '
+                'points (TransferAddedEvent delivery after every registered entry) with every other operation in between; '
+                'entries left by the pinned writer / under both key formats; state sets, enum values, field lists regenerated '
                 'from the source; exercised only: pickle, shelve/dbm.dumb, EventBus, TransferManager.stop, real state '
                 'transitions, cancellation of transfer tasks, _remove_local_file through the executor (sweeps), '
-                '_prioritize_uploads ordering')
+                '_prioritize_uploads ordering, TransferManager.start / _management_job / manage_transfers / _queue_remotely / '
+                '_initialize_upload up to the first peer message (cycle), TransferManager.download (loadsweeps)')
 
     def regenerate(self):
         return [cache_constants.generate(common.REPO, common.LEAN)]
@@ -1431,21 +2210,35 @@ class C17(Property):
     def correspondence(self, seed, tier, model_ok, widen=1):
         res = KResult()
         rng = random.Random(f'C17-{seed}')
-        n = (1500 if tier == "quick" else 20000) * widen
-        cases = WITNESSES + [_gen_case(rng) for _ in range(n)]
+        n = (1900 if tier == "quick" else 24000) * widen
+        cases = WITNESSES + _corpus_cases() + [_gen_case(rng) for _ in range(n)]
         rng_s = random.Random(f'C17-sweep-{seed}')
         sweeps = [_gen_sweep(rng_s) for _ in range((300 if tier == "quick" else 4000) * widen)]
+        rng_l = random.Random(f'C17-loadsweep-{seed}')
+        sweeps += [_gen_loadsweep(rng_l) for _ in range((200 if tier == "quick" else 3000) * widen)]
         missing = _boundary_values_complete()
         if missing:
             res.disagreements.append(Disagreement({'kind': 'generator-self-check'}, missing, [],
                                                   'the generator no longer produces the falsy legal value of these fields'))
+        bad = _corpus_self_check()
+        if bad:
+            res.disagreements.append(Disagreement({'kind': 'generator-self-check'}, bad[:10], [],
+                                                  'the frozen pinned writer of the harness does not reproduce the corpus of '
+                                                  'records written by the unmodified HEAD writer'))
+        res.count('corpus:records', len(corpus()['records']))
+        differs = _tree_writer_differs()
+        if differs:
+            res.count('corpus:records-the-tree-under-test-writes-differently', differs)
+            res.notes.append(f'the writer of the tree under test stores {differs} of the {len(corpus()["records"])} corpus '
+                             'records differently from the pinned writer (information; the corpus stands for the previous '
+                             'release)')
         impl_all = common.parallel_map(_eval_case, cases + sweeps, chunksize=4)
         impl, impl_s = impl_all[:len(cases)], impl_all[len(cases):]
         model = None
         if model_ok:
             lines, spans = [], []
-            for c in cases:
-                ls = ['new'] + _model_lines(c)
+            for c, (_io, tr) in zip(cases, impl):
+                ls = ['new'] + _model_lines(c, tr)
                 spans.append((len(lines) + 1, len(ls) - 1))
                 lines += ls
             out = common.run_driver(self.driver_file, lines)
@@ -1461,18 +2254,39 @@ class C17(Property):
                 res.count('op:' + op[0] + (':stop' if op[0] == 'store' and len(op) > 1 else ''))
                 if op[0] == 'legacy':
                     res.count(f'legacy:abort-absent={int(op[4])},offset={int(op[5])},old-key={int(op[6])},unset={int(op[7])}')
-                if op[0] in ('add', 'addc', 'mut'):
+                if op[0] == 'prev':
+                    res.count(f'prev:st={op[1]["st"]},d={op[1]["d"]},rq={int(op[1]["rq"])}' + (',old-key' if op[2] else ''))
+                if op[0] in ('add', 'addc', 'mut', 'prev'):
                     for k, v in BOUNDARY.items():
                         if op[1][k] is not None and op[1][k] == v and type(op[1][k]) is type(v):
                             res.count(f'boundary:{k}={v!r}')
             for o in io_:
                 w = o.split(' ', 1)[0]
-                if w in ('pending', 'dup', 'aborting', 'announcing', 'done', 'busy', 'no-pending', 'stuck'):
+                if w in ('pending', 'dup', 'aborting', 'announcing', 'done', 'busy', 'no-pending', 'stuck', 'loading'):
                     res.count('phase:' + w)
             nontrivial = False
             baseline: list = []
             special = False
+            cut = None                    # first op whose outcome depends on shelve's order (compared up to there)
             for ev in trace:
+                if ev.get('ambiguous') and cut is None:
+                    cut = ev['i']
+                    res.count('restart:one-identity-two-differing-entries (monitor only from there)')
+                if ev['op'] in ('restartc', 'loadr', 'load-end') and ev.get('phase') == 'ended' and 'loaded' in ev:
+                    res.count('load:ended-after-suspensions', 1 if ev['registered'] else 0)
+                    if ev['touched']:
+                        res.count('load:operations-for-identities-meanwhile')
+                        if ev['loaded']:
+                            nontrivial = True
+                    if ev['wrote']:
+                        res.count('load:cache-written-meanwhile')
+                if ev['op'] == 'cycle':
+                    res.count('cycle:PeerTransferQueue', len(ev['dl']))
+                    res.count('cycle:PeerTransferRequest', len(ev['ul']))
+                if ev['op'] in ('prev', 'prevc', 'dupkey') and ev.get('result') == 'ok':
+                    baseline, special = ev['db_after'], True
+                    if len({_id(f) for f in baseline}) < len(baseline):
+                        res.count('cache:one-identity-under-two-keys')
                 if ev['op'] == 'new':
                     baseline, special = [], False
                 elif ev['op'] == 'store' and 'error' not in ev:
@@ -1491,6 +2305,8 @@ class C17(Property):
                         res.count('restart:with-colliding-concatenation')
                     for f in baseline:
                         res.count(f'persisted:st={f["st"]},d={f["d"]}')
+                        if f.get('rq') and 'key' in f:
+                            res.count(f'persisted-by-another-writer:rq=1,st={f["st"]},d={f["d"]}')
                     if ev['loaded'] and (special or coll or any(f['st'] in IN_PROGRESS for f in baseline)):
                         nontrivial = True
                 elif ev['op'] == 'restart':
@@ -1504,6 +2320,8 @@ class C17(Property):
                 res.traces_validated += 1
                 a = [_canon(x, False) for x in io_]
                 b = [_canon(x, True) for x in model[i]]
+                if cut is not None:
+                    a, b = a[:cut], b[:cut]
                 if a != b:
                     k = next((j for j, (x, y) in enumerate(zip(a, b)) if x != y), min(len(a), len(b)))
                     res.disagreements.append(Disagreement(
@@ -1515,9 +2333,19 @@ class C17(Property):
         # sweeps: real code + monitor (no model)
         for c, (io_, trace) in zip(sweeps, impl_s):
             res.evaluations += 1
-            res.count('kind:sweep')
+            res.count('kind:' + c['kind'])
             if io_ and io_[0].startswith('HARNESS-EXC'):
                 res.disagreements.append(Disagreement(c, io_[0], None, 'harness could not run the sweep'))
+                continue
+            if c['kind'] == 'loadsweep':
+                ev = trace[0]
+                res.count('loadsweep:wishes', len(ev['wish']))
+                both = {tuple(i) for i in ev['cache']} & {tuple(i) for i in ev['wish']}
+                if both:
+                    res.count('loadsweep:download()-of-a-cache-entry-during-load', len(both))
+                    if c['slow']:
+                        res.nontrivial_keys.add(common.sha(c))
+                res.violations += _monitor(c, trace)
                 continue
             for a in c['block']:
                 res.count('sweep:do=' + a['do'] + (':' + a['method'] if a['do'] == 'tr' else ''))
